@@ -114,6 +114,27 @@ func (ex *Exec) rvOfIface(s *State, iv *IfaceV) *ReflectValue {
 			one = a
 		}
 	}
+	if live > 1 && ex.feasBranches {
+		// let the solver discard alternatives that are infeasible on this path
+		pc := ex.pcTerm(s)
+		live = 0
+		for _, a := range iv.alts {
+			if ex.simp(s, a.g).IsFalse() {
+				continue
+			}
+			if ex.solver.CheckQuick(ex.feasMs, pc, a.g) == "unsat" {
+				continue
+			}
+			live++
+			one = a
+		}
+	}
+	if live == 0 && ex.feasBranches {
+		// no alternative is feasible: the path itself is infeasible
+		ex.restrictions++
+		s.dead = true
+		return &ReflectValue{}
+	}
 	if live != 1 {
 		return &ReflectValue{valid: true, multi: iv}
 	}
@@ -206,6 +227,11 @@ func (ex *Exec) reflectTypeMethod(s *State, rt *ReflectType, name string, args [
 		switch name {
 		case "String", "Name":
 			return ex.opaqueStr(s)
+		case "Implements":
+			// dynamic type not tracked here: either answer is possible
+			return tb.Fresh("impl", BoolSort)
+		case "Kind":
+			return tb.BV(uint64(reflect.Ptr), 64)
 		}
 		unsup("reflect.Type.%s on unknown type", name)
 	}
@@ -325,6 +351,8 @@ func (ex *Exec) reflectCall(s *State, f *ssa.Function, name string, args []Value
 func (ex *Exec) reflectValueMethod(s *State, rv *ReflectValue, m string, args []Value, site string) Value {
 	tb := ex.tb
 	switch m {
+	case "String":
+		return ex.opaqueStr(s)
 	case "IsValid":
 		return tb.Bool(rv.valid)
 	case "Kind":
@@ -582,6 +610,17 @@ func (ex *Exec) fmtValue(s *State, t types.Type, v Value, g *Term, site string, 
 	}
 	for _, nm := range []string{"Error", "String"} {
 		if fn := ex.findMethod(t, nm); fn != nil && fn.Signature.Params().Len() == 0 && fn.Signature.Results().Len() == 1 && isString(fn.Signature.Results().At(0).Type()) {
+			// a method formatting its own receiver with a numeric verb does not
+			// re-enter itself in fmt; do not model a recursion the verbs avoid
+			onStack := false
+			for _, cf := range ex.curFn {
+				if cf == fn || (cf.Signature.Recv() != nil && fn.Signature.Recv() != nil && cf.Name() == fn.Name() && types.Identical(cf.Signature.Recv().Type(), fn.Signature.Recv().Type())) {
+					onStack = true
+				}
+			}
+			if onStack {
+				return
+			}
 			cs := s.clone()
 			if !ex.assume(cs, g) {
 				return
